@@ -102,6 +102,34 @@ class Report:
         cov.setdefault("known_findings_reproduced", list(self.known_hits))
         if self.harness_errors:
             cov["harness_errors"] = self.harness_errors[:10]
+        # uniform solver report: functions encoded and bounds (stated per property module), queries
+        # discharged and solver time (measured; summed from wherever the check recorded them)
+        mod = sys.modules.get(f"vf.props.{self.prop.lower()}")
+        info = getattr(mod, "SOLVER", {}) if mod is not None else {}
+        for k in ("functions_encoded", "bounds"):
+            if k not in cov and k in info:
+                cov[k] = info[k]
+
+        def _walk(o, key):
+            tot = 0.0
+            if isinstance(o, dict):
+                for k, v in o.items():
+                    if k == key and isinstance(v, (int, float)) and not isinstance(v, bool):
+                        tot += v
+                    elif k == key and isinstance(v, dict) and isinstance(v.get("total"), (int, float)):
+                        tot += v["total"]
+                    else:
+                        tot += _walk(v, key)
+            elif isinstance(o, list):
+                for v in o:
+                    tot += _walk(v, key)
+            return tot
+
+        if "queries" not in cov:
+            q = _walk(cov, "queries") + _walk(cov, "obligations")
+            cov["queries"] = int(q)
+        if "solver_s" not in cov:
+            cov["solver_s"] = round(_walk(cov, "solver_s"), 2)
         ev = {
             "property_id": self.prop,
             "tier": self.tier,
